@@ -117,23 +117,44 @@ pub struct LocalBuf {
     store: Vec<u64>,
     off: usize,
     len: usize,
+    /// a buffer at a fixed host address (memory owned by somebody else who outlives it)
+    ext: Option<*mut u8>,
 }
 
 impl LocalBuf {
     pub fn new(len: usize, residue: usize, fill: impl Fn(usize) -> u8) -> LocalBuf {
         let off = residue % 8;
         let words = (off + len).div_ceil(8) + 1;
-        let mut b = LocalBuf { store: vec![0u64; words], off, len };
+        let mut b = LocalBuf { store: vec![0u64; words], off, len, ext: None };
+        for (i, x) in b.as_mut().iter_mut().enumerate() {
+            *x = fill(i);
+        }
+        b
+    }
+    /// A host buffer of `len` bytes at `addr`.
+    ///
+    /// # Safety
+    /// `[addr, addr+len)` must be readable and writable memory that outlives the buffer.
+    pub unsafe fn at(addr: usize, len: usize, fill: impl Fn(usize) -> u8) -> LocalBuf {
+        let mut b = LocalBuf { store: Vec::new(), off: 0, len, ext: Some(addr as *mut u8) };
         for (i, x) in b.as_mut().iter_mut().enumerate() {
             *x = fill(i);
         }
         b
     }
     pub fn as_ref(&self) -> &[u8] {
+        if let Some(p) = self.ext {
+            // SAFETY: contract of `at`.
+            return unsafe { std::slice::from_raw_parts(p, self.len) };
+        }
         // SAFETY: within the u64 storage.
         unsafe { std::slice::from_raw_parts((self.store.as_ptr() as *const u8).add(self.off), self.len) }
     }
     pub fn as_mut(&mut self) -> &mut [u8] {
+        if let Some(p) = self.ext {
+            // SAFETY: contract of `at`.
+            return unsafe { std::slice::from_raw_parts_mut(p, self.len) };
+        }
         // SAFETY: within the u64 storage.
         unsafe { std::slice::from_raw_parts_mut((self.store.as_mut_ptr() as *mut u8).add(self.off), self.len) }
     }
